@@ -3,6 +3,7 @@
 #include <stdio.h>
 #include <stdlib.h>
 #include <string.h>
+#include <strings.h>
 #define M(f) m_##f
 size_t m_strlen(const char *); char *m_strchr(const char *, int); char *m_strrchr(const char *, int);
 int m_strcmp(const char *, const char *); int m_strncmp(const char *, const char *, size_t);
@@ -10,7 +11,9 @@ char *m_strcpy(char *, const char *); char *m_strcat(char *, const char *); char
 int m_isdigit(int); int m_islower(int); int m_isupper(int); int m_isalpha(int); int m_isalnum(int); int m_isspace(int);
 int m_isprint(int); int m_tolower(int); int m_toupper(int); int m_abs(int); long m_strtol(const char *, char **, int);
 int m_atoi(const char *); int m_memcmp(const void *, const void *, size_t); char *m_stpcpy(char *, const char *);
-int m_ispunct(int); int m_isxdigit(int); int m_iscntrl(int);
+int m_ispunct(int); int m_isxdigit(int); int m_iscntrl(int); int m_isblank(int); int m_isgraph(int);
+size_t m_strspn(const char *, const char *); size_t m_strcspn(const char *, const char *); char *m_strpbrk(const char *, const char *);
+int m_strcasecmp(const char *, const char *); size_t m_strnlen(const char *, size_t);
 static int sgn(int x) { return (x > 0) - (x < 0); }
 static const char *corpus[] = {"", "a", "abc", "abd", "ab", "ABC", "a b\tc", "hello world", "  42x", "-17", "+9 ", "007", "x",
 	"\xd8\xa8\xd8\xa7", "caf\xc3\xa9", "\xff\xfe", "12345678901", "aaa", "aab", "\n", "a\nb\n", "%s%d", "zzzzzzzz", " \t\n-5q"};
@@ -19,7 +22,7 @@ int main(void)
 	int c, i, j, bad = 0, n = sizeof(corpus) / sizeof(corpus[0]), checks = 0;
 	for (c = -1; c < 256; c++) {
 #define CT(f) do { checks++; if (!!M(f)(c) != !!f(c)) { printf("ctype %s(%d) differs\n", #f, c); bad++; } } while (0)
-		CT(isdigit); CT(islower); CT(isupper); CT(isalpha); CT(isalnum); CT(isspace); CT(isprint); CT(ispunct); CT(isxdigit); CT(iscntrl);
+		CT(isdigit); CT(islower); CT(isupper); CT(isalpha); CT(isalnum); CT(isspace); CT(isprint); CT(ispunct); CT(isxdigit); CT(iscntrl); CT(isblank); CT(isgraph);
 		checks += 2;
 		if (m_tolower(c) != tolower(c)) { printf("tolower(%d)\n", c); bad++; }
 		if (m_toupper(c) != toupper(c)) { printf("toupper(%d)\n", c); bad++; }
@@ -44,6 +47,11 @@ int main(void)
 			checks += 3;
 			if (sgn(m_strcmp(a, b)) != sgn(strcmp(a, b))) { printf("strcmp %d %d\n", i, j); bad++; }
 			if (m_strstr(a, b) != strstr(a, b)) { printf("strstr %d %d\n", i, j); bad++; }
+			checks += 4;
+			if (m_strspn(a, b) != strspn(a, b)) { printf("strspn %d %d\n", i, j); bad++; }
+			if (m_strcspn(a, b) != strcspn(a, b)) { printf("strcspn %d %d\n", i, j); bad++; }
+			if (m_strpbrk(a, b) != strpbrk(a, b)) { printf("strpbrk %d %d\n", i, j); bad++; }
+			if (sgn(m_strcasecmp(a, b)) != sgn(strcasecmp(a, b))) { printf("strcasecmp %d %d\n", i, j); bad++; }
 			strcpy(b1, a); strcpy(b2, a);
 			if (strcmp(m_strcat(b1, b), strcat(b2, b))) { printf("strcat %d %d\n", i, j); bad++; }
 			for (k = 0; k < 6; k++) {
